@@ -45,6 +45,14 @@ fn cnf_with_trailer(k: usize) -> String {
         _ => format!("c trailing comment line number {}\n", k),
     }
 }
+/// a header that declares far more variables and clauses than the stream uses (declared counts must not size anything)
+fn cnf_loose_header(k: usize) -> String {
+    if k == 0 {
+        "p cnf 2000000000 0\n".into()
+    } else {
+        cnf_clause(k)
+    }
+}
 fn cnf_comments_between(k: usize) -> String {
     if k % 2 == 0 {
         cnf_clause(k)
@@ -137,6 +145,7 @@ const STREAMS: &[(&str, &str, fn(usize) -> String)] = &[
     ("cnf", "header with 2 clauses, then only comment lines", cnf_with_trailer),
     ("cnf", "clauses and comment lines alternating", cnf_comments_between),
     ("cnf", "blocks of 5000 consecutive comment lines", cnf_comment_block),
+    ("cnf", "header declaring 2000000000 variables, ordinary clauses", cnf_loose_header),
     ("wcnf", "clauses", wcnf_clause),
     ("gcnf", "clauses", gcnf_clause),
     ("btor2", "input nodes with symbols and comments", btor2_nodes),
